@@ -55,6 +55,8 @@ func main() {
 	case "residuals":
 		// debugging aid: print the residual programs of a plugin
 		cmdResiduals(os.Args[2:])
+	case "typed":
+		cmdTyped(os.Args[2:])
 	case "replay":
 		if len(os.Args) < 3 {
 			usage()
